@@ -775,7 +775,14 @@ class PendingAugAssign(PendingNode[AugAssign]):
             # todo: could be optimized if slice is const
             tmp_slice_name = Name(id=ol_name(OL_AUGASSIGN_SLICE_TMP))
             target = self.node.target
-            subscript_parent = expr_transf(self.nsp, target.value)
+            # the object expression runs once, before the index
+            subscript_parent = Name(id=ol_name(OL_AUGASSIGN_OBJ_TMP))
+            return_list.append(
+                NamedExpr(
+                    target=subscript_parent,
+                    value=expr_transf(self.nsp, target.value),
+                )
+            )
 
             slice_expr = target.slice
             if isinstance(slice_expr, Slice):
@@ -820,7 +827,14 @@ class PendingAugAssign(PendingNode[AugAssign]):
             )
         elif isinstance(self.node.target, Attribute):
             target = self.node.target
-            attr_parent = expr_transf(self.nsp, target.value)
+            # the object expression runs once
+            attr_parent = Name(id=ol_name(OL_AUGASSIGN_OBJ_TMP))
+            return_list.append(
+                NamedExpr(
+                    target=attr_parent,
+                    value=expr_transf(self.nsp, target.value),
+                )
+            )
             return_list.append(
                 NamedExpr(
                     target=tmp_target_name,
